@@ -173,7 +173,7 @@ def run(tier, seed):
         "bounds": "extents <= 4; all sparse inputs; positions and occupancy coordinates are symbolic integers, the slip dictionary is a guarded symbolic dictionary",
         "functions_exercised": "whole compiler with spacetime (teaal.trans.canvas.Canvas, teaal.trans.graphics.Graphics, teaal.ir.spacetime.SpaceTime, Equation.__need_enumerate)",
         "vacuity": "a program that never reports an activity is inconclusive; per-program E1 witness and twin",
-        "exhaustive": True,
+        "exhaustive": False,
     }
     return runner.finish(PROP, tier, seed, "translation_validation", res, t0, cov, ASSUME)
 
